@@ -358,3 +358,34 @@ package datamodel
 // ---- C20: paths, path segments and kinds are values; nothing shared is written (frame sweep) ----
 //@ sweep[C20] assigns nothing: Path, PathSegment, Kind, KindSet, NewPath(), NewPathNocopy(), ParsePath(),
 //@   ParsePathSegment(), PathSegmentOfString(), PathSegmentOfInt()
+
+// ---- C01: deep equality agrees with equality of the abstract values ----
+// veq: equality of abstract values, defined by one level of unfolding per kind (maps: same length
+// and, position by position, equal keys and equal values — entry order matters, as for the data
+// model's ordered maps). deepok(v): v contains no bytes and no link anywhere (their comparison goes
+// through Go string conversion / interface equality of link values, which is not specified here).
+//@ pure func veq(a Val, b Val) bool
+//@ pure func deepok(v Val) bool
+//@ axiom veq_kind: forall a Val, b Val :: veq(a, b) ==> vkind(a) == vkind(b)
+//@ axiom veq_null: forall a Val, b Val :: vkind(a) == Kind_Null && vkind(b) == Kind_Null ==> veq(a, b)
+//@ axiom veq_bool: forall a Val, b Val :: vkind(a) == Kind_Bool && vkind(b) == Kind_Bool ==> (veq(a, b) <==> vbool(a) == vbool(b))
+//@ axiom veq_int: forall a Val, b Val :: vkind(a) == Kind_Int && vkind(b) == Kind_Int ==> (veq(a, b) <==> vint(a) == vint(b))
+//@ axiom veq_float: forall a Val, b Val :: vkind(a) == Kind_Float && vkind(b) == Kind_Float ==> (veq(a, b) <==> feq(vfloat(a), vfloat(b)))
+//@ axiom veq_string: forall a Val, b Val :: vkind(a) == Kind_String && vkind(b) == Kind_String ==> (veq(a, b) <==> vstr(a) == vstr(b))
+//@ axiom veq_map: forall a Val, b Val :: vkind(a) == Kind_Map && vkind(b) == Kind_Map ==> (veq(a, b) <==> vlen(a) == vlen(b) && (forall i mathint :: 0 <= i && i < vlen(a) ==> veq(vkey(a, i), vkey(b, i)) && veq(vchild(a, i), vchild(b, i))))
+//@ axiom veq_list: forall a Val, b Val :: vkind(a) == Kind_List && vkind(b) == Kind_List ==> (veq(a, b) <==> vlen(a) == vlen(b) && (forall i mathint :: 0 <= i && i < vlen(a) ==> veq(vchild(a, i), vchild(b, i))))
+//@ axiom deepok_leaf: forall v Val :: deepok(v) ==> vkind(v) != Kind_Bytes && vkind(v) != Kind_Link && vkind(v) != Kind_Invalid
+//@ axiom deepok_rec: forall v Val, i mathint :: deepok(v) && isrec(v) && 0 <= i && i < vlen(v) ==> deepok(vchild(v, i)) && (vkind(v) == Kind_Map ==> deepok(vkey(v, i)))
+
+// An integer above the int64 range can only be held by a node that implements UintNode (AsInt cannot return it).
+//@ axiom big_ints_are_uint_nodes: forall n Node :: vkind(n.val) == Kind_Int && vint(n.val) > 9223372036854775807 ==> implements(n, "datamodel.UintNode")
+//@ func DeepEqual(x, y) (r)
+//@   requires x != nil && y != nil
+//@   assigns[C20] nothing
+//@   ensures[C01] deepok(x.val) && deepok(y.val) ==> r == veq(x.val, y.val)
+//@   loop 0 assigns xitr.pos, yitr.pos
+//@   loop 0 invariant xitr != nil && yitr != nil && xitr.src == x.val && yitr.src == y.val && xitr.pos == yitr.pos && 0 <= xitr.pos && xitr.pos <= vlen(x.val) && vlen(x.val) == vlen(y.val)
+//@   loop 0 invariant deepok(x.val) && deepok(y.val) ==> forall j mathint :: 0 <= j && j < xitr.pos ==> veq(vkey(x.val, j), vkey(y.val, j)) && veq(vchild(x.val, j), vchild(y.val, j))
+//@   loop 1 assigns xitr.pos, yitr.pos
+//@   loop 1 invariant xitr != nil && yitr != nil && xitr.src == x.val && yitr.src == y.val && xitr.pos == yitr.pos && 0 <= xitr.pos && xitr.pos <= vlen(x.val) && vlen(x.val) == vlen(y.val)
+//@   loop 1 invariant deepok(x.val) && deepok(y.val) ==> forall j mathint :: 0 <= j && j < xitr.pos ==> veq(vchild(x.val, j), vchild(y.val, j))
